@@ -420,6 +420,15 @@ func (h *hcase) doOp(t []string) (string, bool) {
 	}
 	atoi := func(s string) int64 { v, _ := strconv.ParseInt(s, 10, 64); return v }
 	switch t[0] {
+	case "less":
+		if len(t) < 5 {
+			return "", false
+		}
+		r := "0"
+		if scheduler.VerifLess(atoi(t[1]), scheduler.ID(atoi(t[2])), atoi(t[3]), scheduler.ID(atoi(t[4]))) {
+			r = "1"
+		}
+		return fmt.Sprintf("less %s %s %s %s => %s", t[1], t[2], t[3], t[4], r), true
 	case "sched":
 		if len(t) < 6 {
 			return "", false
@@ -635,6 +644,20 @@ func Run(args []string) int {
 			}
 		}
 		return 0
+	}
+	// the comparator, exhaustively on a grid of (when, id) keys (real Item.Less through the hook)
+	{
+		var ops []string
+		for _, wa := range []int64{-1, 0, 1, 7} {
+			for ia := int64(0); ia < 3; ia++ {
+				for _, wb := range []int64{-1, 0, 1, 7} {
+					for ib := int64(0); ib < 3; ib++ {
+						ops = append(ops, fmt.Sprintf("less %d %d %d %d", wa, ia, wb, ib))
+					}
+				}
+			}
+		}
+		emit(out, "less", execCase(ops))
 	}
 	r := kit.NewRand(f.Seed)
 	for i := 0; i < f.N; i++ {
